@@ -24,6 +24,7 @@ const (
 	defaultIngressListen                  = ":8080"
 	defaultPullListen                     = ":9443"
 	defaultPullAPIMaxBatch                = 100
+	maxPullAPIMaxBatch                    = 100 // per-dequeue cap of the queue backends
 	defaultPullAPIDefaultLeaseTTL         = 30 * time.Second
 	defaultAdminListen                    = "127.0.0.1:2019"
 	defaultMetricsListen                  = "127.0.0.1:9900"
@@ -2580,6 +2581,10 @@ func compileAPI(name string, in *APIBlock, defaultListen string) (APIConfig, Val
 				v, err := strconv.Atoi(raw)
 				if err != nil || v <= 0 {
 					res.Errors = append(res.Errors, "pull_api.max_batch must be a positive integer")
+				} else if v > maxPullAPIMaxBatch {
+					// Every queue backend serves at most 100 messages per dequeue;
+					// a larger value would be capped silently.
+					res.Errors = append(res.Errors, fmt.Sprintf("pull_api.max_batch must not exceed %d", maxPullAPIMaxBatch))
 				} else {
 					out.MaxBatch = v
 				}
